@@ -25,7 +25,7 @@ def run(ctx, chk):
         bio = cfg.bio
         b = an.one(chk, "S-inverse", bio, "CodonTable::from_map", name="from_map", self_re=r"^translation::CodonTable<A, B>$", inherent=True)
         if b:
-            into_tbl = re.compile(r"^<T as std::convert::Into<std::collections::HashMap<seq::Seq<A>, B>>>::into$")
+            into_tbl = re.compile(r"^CONV<T -> std::collections::HashMap<seq::Seq<A>, B>>$")
             r = xlate.inverse_shape(chk, cfg, b, "S-inverse", "CodonTable::from_map", lambda s: an.is_call(s, into_tbl, (P(1),)))
             if r is not None:
                 ret = r.ret
@@ -55,10 +55,16 @@ def run(ctx, chk):
             got = show(r[0].ret)[:200] if r else "?"
             if len(r) == 1 and not r[0].guards:
                 t = r[0].ret
+                g = clo = None
                 if an.is_call(t, re.compile(r"Result::<&B, translation::TranslationError<A, B>>::copied$")):
                     o = t[2][0]
                     if an.is_call(o, re.compile(r"Option::<&B>::ok_or_else::<")):
                         g, clo = o[2][0], o[2][1]
+                elif an.is_call(t, re.compile(r"Option::<B>::ok_or_else::<")) and an.is_call(t[2][0], re.compile(r"Option::<&B>::copied$")):
+                    # the same lookup with `.copied()` applied before the error mapping
+                    g, clo = t[2][0][2][0], t[2][1]
+                if g is not None:
+                    if True:
                         okg = an.is_call(g, re.compile(r"HashMap::<seq::Seq<A>, B>::get::<seq::slice::SeqSlice<A>>$"), (F(P(1), FWD), P(2)))
                         okc = False
                         if clo[0] == "closure" and clo[3] == (P(2),):
@@ -68,7 +74,7 @@ def run(ctx, chk):
                                 cr = [q for q in cps if q.end == "return"]
                                 if len(cr) == 1 and not cr[0].guards:
                                     e = cr[0].ret
-                                    okc = e[0] == "agg" and e[3] == "InvalidCodon" and an.is_call(e[4][0], re.compile(r"^<&seq::slice::SeqSlice<A> as std::convert::Into<seq::Seq<A>>>::into$"), (F(P(1), 0),))
+                                    okc = e[0] == "agg" and e[3] == "InvalidCodon" and an.is_call(e[4][0], re.compile(r"^CONV<&seq::slice::SeqSlice<A> -> seq::Seq<(A|B)>>$"), (F(P(1), 0),))
                         ok = okg and okc
             chk.ob("S-variant-flow", "CodonTable::try_to_amino", ok, "must be table.get(codon).ok_or_else(|| InvalidCodon(codon.into())).copied(); got " + got, b["span"])
             n += 1
